@@ -66,9 +66,13 @@ func (g *PackageLoader) GetMatching(cwd, fullMethod string, opts *method.ParseOp
 		}
 
 		obj := scope.Lookup(name)
-		m, err := method.Parse(obj, opts, g.localConfig(pkg, name))
+		local := g.localConfig(pkg, name)
+		m, err := method.Parse(obj, opts, local)
 		if err == nil {
 			matches = append(matches, m)
+		} else if local.Err != nil {
+			// invalid settings must not make the function disappear silently
+			return nil, err
 		}
 	}
 
@@ -116,14 +120,25 @@ func (g *PackageLoader) localConfig(pkg *packages.Package, name string) method.L
 					}
 
 					contexts := map[string]bool{}
+					var lineErr error
 					for _, line := range lines {
-						if cmd, rest := parse.Command(line); cmd == "context" {
-							if ctx, err := parse.String(rest); err == nil {
-								contexts[ctx] = true
+						cmd, rest := parse.Command(line)
+						if cmd != "context" {
+							if lineErr == nil {
+								lineErr = fmt.Errorf("unknown setting: %s", cmd)
 							}
+							continue
 						}
+						ctx, err := parse.String(rest)
+						if err != nil {
+							if lineErr == nil {
+								lineErr = fmt.Errorf("error parsing 'goverter:context': %s", err)
+							}
+							continue
+						}
+						contexts[ctx] = true
 					}
-					fns[fn.Name.Name] = method.LocalOpts{Context: contexts}
+					fns[fn.Name.Name] = method.LocalOpts{Context: contexts, Err: lineErr}
 				}
 			}
 		}
